@@ -38,6 +38,7 @@ PARAM_VALUES = {
 REQUIRED_VALUES = {
     "order": [3, 4], "attribute_name": ["w"], "metric": ["euclidean",
                                                          "supremum"],
+    "link_density": [0.35], "recurrence_rate": [0.3],
 }
 
 
